@@ -36,11 +36,12 @@ structure ClassRec where
   isTrait : Bool
   mro : List Cls                  -- ClassIR.mro, the class itself first
   methods : List (Name × Sig)     -- ClassIR.methods in dict order (name ↦ signature of that FuncIR)
+  children : List Cls := []       -- ClassIR.children: classes that list this one among their direct bases
 deriving Repr, DecidableEq
 
 abbrev Hier := List ClassRec
 
-def emptyRec : ClassRec := { isTrait := false, mro := [], methods := [] }
+def emptyRec : ClassRec := { isTrait := false, mro := [], methods := [], children := [] }
 
 def Hier.rec (H : Hier) (c : Cls) : ClassRec := H.getD c emptyRec
 
@@ -205,6 +206,31 @@ def glueOk (H : Hier) (v : ClassVT) : Bool :=
   v.entries.all (entryGlueOk same H) && v.traitVTs.all (fun p => p.2.all (entryGlueOk same H))
 
 end
+
+/-! ## `ClassIR.is_method_final` (decides direct C calls instead of vtable dispatch, `==` as identity,
+       Optional truthiness as `is not None`) -/
+
+/-- `ClassIR.subclasses()`: `result = set(children); for child in children: result.update(child.subclasses())`
+    (fuel = number of classes; every child was defined later than its parent) -/
+def subclassesFuel (H : Hier) : Nat → Cls → List Cls
+  | 0, _ => []
+  | n + 1, c => (H.rec c).children ++ (H.rec c).children.flatMap (subclassesFuel H n)
+
+def subclasses (H : Hier) (c : Cls) : List Cls := subclassesFuel H H.length c
+
+/-- `ClassIR.is_method_final(name)` (all subclasses known, no interpreted subclasses):
+    the method is defined → every subclass resolves it to the same declaration;
+    not defined → no subclass has it -/
+def isMethodFinal (H : Hier) (c : Cls) (m : Name) : Bool :=
+  match definerOf H c m with
+  | some k => (subclasses H c).all (fun s => definerOf H s m == some k)
+  | none => (subclasses H c).all (fun s => (definerOf H s m).isNone)
+
+/-- `children` is consistent with the MROs: every class that has `c` in its MRO is reached from `c` through
+    `children` (checked on every real ClassIR graph) -/
+def subclassesComplete (H : Hier) : Bool :=
+  (List.range H.length).all fun c => (List.range H.length).all fun d =>
+    !((H.rec d).mro.contains c) || d == c || (subclasses H c).contains d
 
 /-! ## well-formedness of a hierarchy (checked on every real `ClassIR` graph by the harness) -/
 
